@@ -2,12 +2,14 @@
 package main
 
 import (
+	"bytes"
 	"fmt"
 	"strings"
 
 	"github.com/gobwas/ws"
 	"github.com/gobwas/ws/wsutil"
 
+	"verifmc/drivers"
 	"verifmc/env"
 	"verifmc/explore"
 	"verifmc/wops"
@@ -235,6 +237,98 @@ func main() {
 				})
 			}
 			t.Outcome("well-formed")
+		})
+
+		// A send extension that refuses some headers (only non-final frames, only first frames,
+		// every second call): a call that reports n accepted bytes has made exactly those n bytes
+		// part of the stream - what reaches the destination is, at every call boundary, whole frames
+		// whose payloads are a prefix of the accepted bytes in order; a refused write-through that
+		// reported 0 never shows up later. (Plain writes larger than the free buffer space are not
+		// part of these histories.)
+		r.Part("E5-an-extension-that-refuses-some-frames", func(t *explore.T) {
+			type op struct {
+				kind string
+				k    int
+			}
+			const S = 8
+			alpha := []op{{"WriteThrough", 1}, {"WriteThrough", S}, {"WriteThrough", S + 3}, {"Write", 1}, {"FlushFragment", 0}, {"Flush", 0}}
+			var hists [][]op
+			var rec func(h []op)
+			rec = func(h []op) {
+				if len(h) > 0 {
+					hists = append(hists, append([]op{}, h...))
+				}
+				if len(h) == t.Pick(4, 5) {
+					return
+				}
+				for _, o := range alpha {
+					rec(append(h, o))
+				}
+			}
+			rec(nil)
+			errRefused := fmt.Errorf("extension: not this frame")
+			t.Par(len(hists), func(hi int) {
+				h := hists[hi]
+				for _, client := range []bool{false, true} {
+					for _, policy := range []string{"non-final", "first-frames", "every-second-call"} {
+						client, policy := client, policy
+						t.Do(func() string {
+							return fmt.Sprintf("client=%v buffer=%d extension refuses %s: %v; Flush", client, S, policy, h)
+						}, func() *explore.Fail {
+							d := env.NewDst()
+							st := ws.StateServerSide
+							if client {
+								st = ws.StateClientSide
+							}
+							w := wsutil.NewWriterSize(d, st|ws.StateExtended, ws.OpBinary, S)
+							calls := 0
+							w.SetExtensions(wsutil.SendExtensionFunc(func(hd ws.Header) (ws.Header, error) {
+								calls++
+								switch {
+								case policy == "non-final" && !hd.Fin, policy == "first-frames" && hd.OpCode != ws.OpContinuation, policy == "every-second-call" && calls%2 == 0:
+									return hd, errRefused
+								}
+								return hd, nil
+							}))
+							var accepted []byte
+							pos := 0
+							for i, o := range append(append([]op{}, h...), op{"Flush", 0}) {
+								p := wops.Gen(pos, o.k)
+								pos += o.k
+								n := 0
+								var err error
+								switch o.kind {
+								case "WriteThrough":
+									n, err = w.WriteThrough(p)
+								case "Write":
+									n, err = w.Write(p)
+								case "FlushFragment":
+									err = w.FlushFragment()
+								default:
+									err = w.Flush()
+								}
+								if n < 0 || n > len(p) {
+									return explore.Failf("count-out-of-range", "call %d %v: n=%d", i, o, n)
+								}
+								accepted = append(accepted, p[:n]...)
+								frames, rest := drivers.ParseFrames(d.Bytes())
+								if len(rest) != 0 {
+									return explore.Failf("partial-frame-at-call-boundary:refusing-extension", "after call %d %v (err=%v): %d stray bytes", i, o, err, len(rest))
+								}
+								var wire []byte
+								for _, f := range frames {
+									wire = append(wire, f.Payload...)
+								}
+								if len(wire) > len(accepted) || !bytes.Equal(wire, accepted[:len(wire)]) {
+									return explore.Failf("bytes-on-the-wire-that-no-call-reported-as-accepted", "after call %d %v (n=%d err=%v): wire payload %x, accepted %x", i, o, n, err, wire, accepted)
+								}
+							}
+							return nil
+						})
+					}
+				}
+			})
+			t.Outcome("wire-is-a-prefix-of-accepted")
 		})
 
 		// One message of more fragments than a 16-bit counter holds (a one-byte payload per
